@@ -155,13 +155,15 @@ func newDecRun(res *vh.Result, seed int64) *decRun {
 		_, ipn, _ := net.ParseCIDR(n)
 		r.exNets = append(r.exNets, ipn)
 	}
-	for _, cfg := range []string{"wkp", "op", "both"} {
+	for _, cfg := range []string{"wkp", "op", "both", "both2"} {
 		var ps []string
 		switch cfg {
 		case "wkp":
 			ps = []string{wkpCIDR}
 		case "op":
 			ps = []string{r.op}
+		case "both2":
+			ps = []string{r.op, wkpCIDR}
 		default:
 			ps = []string{wkpCIDR, r.op}
 		}
@@ -818,7 +820,7 @@ func (r *decRun) runCase(c dCase) {
 		key = fmt.Sprintf("dec:%s:%v:%v:%v", c.Cfg, q, dn, c.A)
 	}
 	r.res.Case(key)
-	if o.Kind == "synth" && c.Cfg == "both" && len(c.A.Recs) > 1 {
+	if o.Kind == "synth" && (c.Cfg == "both" || c.Cfg == "both2") && len(c.A.Recs) > 1 {
 		r.res.Sample(map[string]any{"cfg": c.Cfg, "q": q, "down": dn, "a": c.A, "model": o, "reply_rcode": rep.Rcode,
 			"reply_ad": rep.AuthenticatedData, "synthesised": len(synthetic)})
 	}
